@@ -82,7 +82,7 @@ def _scalar_shapes(case):
                     return True
                 if nd[0] == "fn" and nd[2] and all(_no_col(a) for a in nd[2]):
                     return True
-                if nd[0] == "fn" and nd[1] in ("fill_null", "coalesce", "hmax", "hmin", "hsum", "hany", "hall") and nd[2] and _no_col(nd[2][0]):
+                if nd[0] == "fn" and nd[1] in ("fill_null", "coalesce", "hmax", "hmin", "hsum", "hany", "hall", "is_in") and nd[2] and _no_col(nd[2][0]):
                     return True  # the literal first argument decides the length of the result
                 if nd[0] == "fn" and nd[1] == "is_in" and len(nd[2]) == 1:
                     return True
@@ -98,6 +98,9 @@ def engine_quirk(ex, case, ref=None):
             or "produces broadcasting column" in msg):
         if _scalar_shapes(case):
             return "polars_scalar_broadcast"
+    if exc_name(ex) == "InvalidOperationError" and "`clip` only supports physical numeric types" in msg and (
+            any(len(t["rows"]) == 0 for t in case["tables"]) or (ref is not None and any(t.n == 0 for t in ref.vars.values()))):
+        return "polars_empty_frame_null_dtype"  # the clipped column of an empty result is Null-typed
     if exc_name(ex) in ("InvalidOperationError", "PanicException", "SchemaError", "ComputeError") and (
             "null" in msg or "Null" in msg) and (any(len(t["rows"]) == 0 for t in case["tables"]) or (
                 ref is not None and any(t.n == 0 for t in ref.vars.values()))):
